@@ -170,3 +170,82 @@ func oneLine(s string) string {
 	}
 	return s
 }
+
+// thoroughSelftest (thorough tier, informational): runs the property's seeded variants - each in
+// its own subprocess on an in-memory overlay of the current tree - and records in the evidence
+// how many of the breaking variants the rules report and how many neutral ones stay silent.
+// Results never produce a VIOLATION line: they show that "0 violations" is not vacuous.
+func thoroughSelftest(prop, repo string, r *Report) {
+	vfile := filepath.Join(verifDir(), "selftest", "variants.json")
+	b, err := os.ReadFile(vfile)
+	if err != nil {
+		return
+	}
+	var vs []Variant
+	if json.Unmarshal(b, &vs) != nil {
+		return
+	}
+	exe, _ := os.Executable()
+	var sel []Variant
+	for _, v := range vs {
+		if v.Prop == prop {
+			sel = append(sel, v)
+		}
+	}
+	type res struct{ status, detail string }
+	results := make([]res, len(sel))
+	sem := make(chan struct{}, 5)
+	var wg sync.WaitGroup
+	for i, v := range sel {
+		wg.Add(1)
+		go func(i int, v Variant) {
+			defer wg.Done()
+			sem <- struct{}{}
+			defer func() { <-sem }()
+			a := []string{"check", v.Prop, "--no-emit", "--tier", "quick", "--repo", repo}
+			for _, e := range v.Edits {
+				a = append(a, "--edit", e)
+			}
+			cmd := exec.Command(exe, a...)
+			cmd.Env = append(os.Environ(), "GOMAXPROCS=4", "VERIF_TIER=quick")
+			out, err := cmd.CombinedOutput()
+			code := 0
+			if ee, ok := err.(*exec.ExitError); ok {
+				code = ee.ExitCode()
+			}
+			var found []string
+			for _, l := range strings.Split(string(out), "\n") {
+				if strings.HasPrefix(l, "FINDING ") {
+					found = append(found, strings.Fields(l)[1])
+				}
+			}
+			hit := false
+			for _, f := range found {
+				if strings.HasPrefix(f, v.Expect) {
+					hit = true
+				}
+			}
+			switch {
+			case code == 3:
+				results[i] = res{"skipped", "does not apply to the current tree"}
+			case v.Expect == "none" && len(found) == 0:
+				results[i] = res{"silent", ""}
+			case v.Expect == "none":
+				results[i] = res{"false-alarm", strings.Join(uniq(found), ",")}
+			case hit:
+				results[i] = res{"reported", strings.Join(uniq(found), ",")}
+			default:
+				results[i] = res{"missed", strings.Join(uniq(found), ",")}
+			}
+		}(i, v)
+	}
+	wg.Wait()
+	ob := r.Ob(prop+".selftest", "selftest", "informational (thorough tier): every seeded breaking variant of this property's anchored code is reported by the obligation it names, every behaviour-preserving variant stays silent (in-memory overlays of the current tree, one subprocess each)", "shows that the rules are armed: a rule that matches nothing passes vacuously for ever")
+	ob.Tier = "thorough"
+	counts := map[string]int{}
+	for i, v := range sel {
+		counts[results[i].status]++
+		ob.SiteS(v.ID + " expect=" + v.Expect + " → " + results[i].status + " " + results[i].detail)
+	}
+	r.Info["selftest_variants"] = counts
+}
